@@ -246,3 +246,111 @@ def check_stage_chain(chk, rule: str, fn: FuncInfo, exprs: list[tuple[ast.expr, 
                     bad = f"the returned value leaves the chain at {last[0]}.{last[2]} instead of through the preprocessor's inverse"
             chk.check(not bad, rule, fn, node, why=bad, construct=text)
     return n
+
+
+# ---------------------------------------------------------------------------------------------------------------------
+# field symmetry: what is done to one field is done to the other (sibling cross-check inside one function)
+_DT = re.compile(r"(float|int|uint|complex)(8|16|32|64|128)$")
+
+
+def _field_token(tok: str) -> tuple[str, int]:
+    """(token with its field index replaced by a placeholder, field index 1 / 2 or 0)"""
+    if tok in ("X", "Y"):
+        return "F", 1 if tok == "X" else 2
+    if _DT.search(tok) or tok.startswith(("np", "dummy")):
+        return tok, 0
+    m = re.match(r"^([A-Za-z_]*[A-Za-z_])([12])([a-z]?(?:_[A-Za-z_0-9]*)?)$", tok)
+    if m:
+        return m.group(1) + "#" + m.group(3), int(m.group(2))
+    m = re.match(r"^([A-Z])([xy])((?:_[A-Za-z_0-9]*)?)$", tok)
+    if m:
+        return m.group(1) + "#" + m.group(3), 1 if m.group(2) == "x" else 2
+    m = re.match(r"^([XY])((?:rec|r|_[A-Za-z_0-9]+|[a-z]{1,4}))$", tok)
+    if m:
+        return "F" + m.group(2), 1 if m.group(1) == "X" else 2
+    m = re.match(r"^(.*)_([xyXY])((?:_[A-Za-z_0-9]*)?)$", tok)
+    if m:
+        return m.group(1) + "_#" + m.group(3), 1 if m.group(2) in "xX" else 2
+    return tok, 0
+
+
+# asymmetries that are there by design (function -> reason); frozen after reading each
+FIELD_ASYMMETRIC = {
+    "predict": "maps data of field 1 to scores of field 2",
+    "_predict_algorithm": "maps data of field 1 to scores of field 2",
+    "_fit_algorithm@CPCCA": "left singular vectors U belong to field 1, right singular vectors V to field 2",
+    "_compute_residual_variance_numpy": "local kernel of a one-directional metric: dX^H dY",
+    "_compute_total_variance_numpy": "local kernel of a one-directional metric",
+    "fraction_variance_Y_explained_by_X": "one-directional metric by definition",
+    "_compute_total_squared_covariance": "un-whitens the two axes of ONE cross matrix: the first axis needs the conjugate transpose",
+    "_compute_cross_covariance_numpy": "X^H Y is not symmetric in its arguments",
+}
+
+
+def _op_signature(node: ast.AST) -> str | None:
+    """name-independent signature of a value-changing operation"""
+    if isinstance(node, ast.BinOp):
+        return "binop:" + type(node.op).__name__
+    if isinstance(node, ast.AugAssign):
+        return "binop:" + type(node.op).__name__
+    if isinstance(node, ast.Call):
+        f = node.func
+        kws = ",".join(sorted(_field_token(k.arg)[0] for k in node.keywords if k.arg))
+        if isinstance(f, ast.Attribute):
+            st = stage_of(dotted(f) or "")
+            if st:
+                return f"{st[0]}#.{st[2]}({kws})"
+            if isinstance(f.value, ast.Name) and f.value.id in ("np", "xr", "da", "dask", "numpy", "xarray", "sp", "scipy"):
+                return f"{f.value.id}.{f.attr}({kws})"
+            return f".{f.attr}({kws})"
+        if isinstance(f, ast.Name):
+            if f.id in ("slice", "len", "isinstance", "print", "range", "tuple", "list", "dict", "str", "int", "float", "bool"):
+                return None
+            return f"{f.id}({kws})"
+    return None
+
+
+def field_symmetry(chk, rule: str, fns: list[FuncInfo]) -> int:
+    """<rule>: inside one function of the two-field family, the operations applied to values of one field (stage maps,
+    method calls, arithmetic - identified by what they do, not by the names of locals; a value's field is read from its
+    provenance: parameters X / Y, stage objects ...1 / ...2, container entries ...1 / ...2, feature_name[0] / [1]) are
+    the operations applied to values of the other field.  A stage inverse, a normalisation or a rename applied to one
+    field only leaves the two fields in different spaces."""
+    import collections
+    n = 0
+    for fn in fns:
+        key = fn.name + ("@" + fn.cls.name if fn.cls is not None else "")
+        if fn.name in FIELD_ASYMMETRIC or key in FIELD_ASYMMETRIC:
+            continue
+        ff = FuncFacts.of(fn)
+        ops: dict[int, collections.Counter] = {1: collections.Counter(), 2: collections.Counter()}
+        where: dict[tuple[int, str], ast.AST] = {}
+        for node in walk_no_nested(fn.node):
+            sig = _op_signature(node)
+            if sig is None:
+                continue
+            if isinstance(node, ast.AugAssign):
+                idx = expr_indices(ff, node.value) | expr_indices(ff, node.target) if isinstance(node.target, ast.Name) else expr_indices(ff, node.value)
+            else:
+                idx = expr_indices(ff, node)
+                if isinstance(node, ast.Call) and isinstance(node.func, ast.Attribute):
+                    idx = idx | expr_indices(ff, node.func.value)
+                    st = stage_of(dotted(node.func) or "")
+                    if st and st[1]:
+                        idx = idx | {st[1]}
+            if idx in ({1}, {2}):
+                f = next(iter(idx))
+                ops[f][sig] += 1
+                where[(f, sig)] = node
+        if not ops[1] or not ops[2]:
+            continue
+        n += 1
+        for a, b in ((1, 2), (2, 1)):
+            for sig, cnt in ops[a].items():
+                if cnt > ops[b].get(sig, 0):
+                    node = where[(a, sig)]
+                    chk.check(False, rule, fn, node, construct=f"{fn.qualname.split('.')[-1]}: operation {sig} on field {a} has a twin on field {b}",
+                              why=f"{fn.qualname} applies {sig} to values of field {a} {cnt} time(s) but only {ops[b].get(sig, 0)} time(s) to values of field {b} "
+                                  f"(e.g. `{norm(node)[:80]}`): the two fields are no longer treated alike (a stage map / normalisation / rename applied to one field only)")
+        chk.ok(rule, fn, None, construct=f"{fn.qualname.split('.')[-1]}: {sum(ops[1].values())} operations per field compared")
+    return n
